@@ -167,6 +167,18 @@ class P(b1.Plugin):
         noise = [] if plain else [t for t in ("PartialEq", "Clone") if rng.random() < 0.25]
         td.type_spelling = True
         gen.finalize_attrs(rng, td, noise)
+        if kind == "enum" and td.variants and not plain and rng.random() < 0.3:
+            # Default educed as well: the only other trait that takes an attribute at a variant, so the Debug attribute of
+            # the designated variant stands before, after or inside the attribute that carries the marker
+            cands = [v for v in td.variants if all("Default" in gen.LEAVES[f.ty]["traits"] for f in v.fields)]
+            if cands:
+                v = rng.choice(cands)
+                td.traits.insert(rng.randrange(len(td.traits) + 1), "Default")
+                if v.attr_src and rng.random() < 0.35:
+                    inner = v.attr_src[0][len("#[educe("):-2]
+                    v.attr_src[0] = "#[educe(%s)]" % rng.choice(["Default, " + inner, inner + ", Default"])
+                else:
+                    v.attr_src.insert(rng.randrange(len(v.attr_src) + 1), "#[educe(Default)]")
         if plain:
             td.extra_items = ["pub mod twin { use super::super::prelude::*; #[derive(Debug)] %s }" % td.render_plain()]
         return td
